@@ -410,6 +410,26 @@ def loader_guard_obligations(ctx, rep, eff, rule="R11a"):
             loads = [n for n in ast.walk(f.node) if isinstance(n, ast.Call) and isinstance(n.func, ast.Attribute) and n.func.attr == "load"
                      and (norm(n.func.value) == var or n.func.value is s.call)]
             in_loop = in_loop or len(loads) > 1 or any(enclosing_loops(f.node, l) for l in loads)
+        # the open that feeds the load: the writer may be replacing the file at this moment (unlink + create), so a cache that
+        # was there for the freshness test can be gone at the open
+        if s.target.name in ("pickle.load", "pickle.Unpickler") and s.call.args:
+            src = s.call.args[0]
+            opener = None
+            if isinstance(src, ast.Call):
+                opener = src
+            elif isinstance(src, ast.Name):
+                for n in ast.walk(f.node):
+                    if isinstance(n, (ast.With, ast.AsyncWith)):
+                        for it in n.items:
+                            if isinstance(it.optional_vars, ast.Name) and it.optional_vars.id == src.id and isinstance(it.context_expr, ast.Call):
+                                opener = it.context_expr
+                    if isinstance(n, ast.Assign) and any(isinstance(t, ast.Name) and t.id == src.id for t in n.targets) and isinstance(n.value, ast.Call):
+                        opener = n.value
+            if opener is not None and (dotted(opener.func) or "").split(".")[-1] == "open":
+                otries = enclosing_tries(f.node, opener)
+                if not any(catches(h, "OSError") for tr in otries for h in tr.handlers) and root is f:
+                    problems.append(f"`{norm(opener)[:50]}` is outside the guard of the load: a cache file that vanishes between the freshness test and the open "
+                                    "(a writer replacing it, a clean-up) raises FileNotFoundError to the client instead of regenerating the listing")
         if in_loop:
             problems.append("records are read until end-of-file: a cache file cut off at a record boundary (or at byte 0) is accepted as a complete, "
                             "shorter listing instead of being regenerated")
